@@ -505,11 +505,11 @@ Qed.
 Lemma render_item_chars it x : item_okb it = true -> In x (render_item it) -> is_digit x = true \/ x = CH_MINUS.
 Proof.
   destruct it as [n|n m]; cbn [item_okb render_item].
-  - intros H Hx. left. eapply digitsb_chars; eauto.
+  - intros H Hx. left. exact (digitsb_chars n x H Hx).
   - rewrite andb_true_iff. intros [Hn Hm] Hx. apply in_app_or in Hx. destruct Hx as [Hx|[Hx|Hx]].
-    + left. eapply digitsb_chars; eauto.
+    + left. exact (digitsb_chars n x Hn Hx).
     + right. symmetry. exact Hx.
-    + left. eapply digitsb_chars; eauto.
+    + left. exact (digitsb_chars m x Hm Hx).
 Qed.
 
 Lemma render_item_nonnil it : item_okb it = true -> render_item it <> [].
@@ -544,13 +544,12 @@ Lemma split_render its : its <> [] -> forallb item_okb its = true ->
 Proof.
   intros NE H. rewrite cstr_id.
   2:{ intros x Hx. destruct (render_list_chars its x H Hx) as [D|[-> | ->]]; [apply digit_range in D; lia|discriminate|discriminate]. }
-  clear NE. revert H. induction its as [|it r IH]; intros H.
-  - reflexivity.
-  - cbn [forallb] in H. apply andb_true_iff in H. destruct H as [Hit Hr]. destruct r as [|it2 r2].
-    + cbn [render_list map]. apply split_on_none. intros x Hx. eapply render_item_no_comma; eauto.
-    + change (render_list (it :: it2 :: r2)) with (render_item it ++ CH_COMMA :: render_list (it2 :: r2)).
-      rewrite split_on_app by (intros x Hx; eapply render_item_no_comma; eauto).
-      rewrite IH by exact Hr. reflexivity.
+  destruct its as [|it r]; [congruence|]. clear NE. revert it H.
+  induction r as [|it2 r2 IH]; intros it H; cbn [forallb] in H; apply andb_true_iff in H; destruct H as [Hit Hr].
+  - cbn [render_list map]. apply split_on_none. intros x Hx. exact (render_item_no_comma it x Hit Hx).
+  - change (render_list (it :: it2 :: r2)) with (render_item it ++ CH_COMMA :: render_list (it2 :: r2)).
+    rewrite split_on_app by (intros x Hx; exact (render_item_no_comma it x Hit Hx)).
+    rewrite IH by exact Hr. reflexivity.
 Qed.
 
 Lemma digits_no_minus n x : digitsb n = true -> In x n -> x <> CH_MINUS.
@@ -569,12 +568,12 @@ Proof.
   intros H. pose proof (render_item_nonnil it H) as NN. unfold piece_mem.
   destruct (render_item it) as [|c0 r0] eqn:ER; [congruence|]. rewrite <- ER. clear NN.
   destruct it as [n|n m]; cbn [item_okb render_item] in *.
-  - rewrite split_first_none by (intros x Hx; eapply digits_no_minus; eauto).
+  - rewrite split_first_none by (intros x Hx; apply (digits_no_minus n x); assumption).
     cbv zeta. rewrite parseIntClamped_digits by exact H. unfold clamp_ok.
     pose proof (dval_nonneg n). destruct (kMaxReasonableCpuId <? dval n); cbn [negb andb]; [reflexivity|].
     destruct (Z.leb_spec 0 (dval n)); [reflexivity|lia].
   - apply andb_true_iff in H. destruct H as [Hn Hm].
-    rewrite split_first_app by (intros x Hx; eapply digits_no_minus; eauto).
+    rewrite split_first_app by (intros x Hx; apply (digits_no_minus n x); assumption).
     cbv zeta. rewrite !parseIntClamped_digits by assumption. unfold clamp_ok.
     pose proof (dval_nonneg n). pose proof (dval_nonneg m).
     destruct (kMaxReasonableCpuId <? dval n); destruct (kMaxReasonableCpuId <? dval m); cbn [negb andb]; try reflexivity.
